@@ -14,8 +14,11 @@ import (
 	"encoding/hex"
 	"fmt"
 	"math/rand/v2"
+	"os"
 	"sort"
 	"strings"
+	"sync/atomic"
+	"syscall"
 	"testing"
 	"time"
 
@@ -59,10 +62,57 @@ const (
 	eRows    = "tdx.UnsignedTDX"
 )
 
-// guardBudget is not part of the property: it only stops a broken build of the repository (an interval
-// loop that never ends, a runaway allocation) from taking the machine down; the largest honest call
-// costs ~25 ms CPU (the watchdog ends the worker at 3x the budget) and ~4 MB.
-var guardBudget = core.Budget{CPU: 1 * time.Second, Alloc: 512 << 20}
+// guardBudget and the non-termination breaker are not part of the property: they only stop a broken
+// build of the repository (an interval loop that never ends, a runaway allocation) from taking the
+// machine down. The largest honest call costs ~25 ms CPU and ~4 MB.
+var guardBudget = core.Budget{Alloc: 512 << 20}
+
+const callCPULimit = 3 * time.Second // process CPU spent inside one repository call before the shard gives up
+
+func procCPU() int64 {
+	var ru syscall.Rusage
+	if err := syscall.Getrusage(0, &ru); err != nil {
+		return 0
+	}
+	return ru.Utime.Nano() + ru.Stime.Nano()
+}
+
+// breaker ends the shard (violation recorded, summary written) when a repository call does not return:
+// restarting after every such case would take hours when a defect makes most calls loop.
+type breaker struct {
+	start atomic.Int64 // process CPU at call start | 1; 0 = idle
+	cas   atomic.Int64
+	entry atomic.Value
+	gen   atomic.Value
+}
+
+func (b *breaker) watch(c *core.Ctx) {
+	for {
+		time.Sleep(100 * time.Millisecond)
+		s := b.start.Load()
+		if s == 0 || procCPU()-s < int64(callCPULimit) {
+			continue
+		}
+		entry, _ := b.entry.Load().(string)
+		gen, _ := b.gen.Load().(string)
+		c.Violate(core.Violation{Kind: "budget-cpu", Entry: entry, Site: entry, Gen: gen, Case: int(b.cas.Load()),
+			Detail: fmt.Sprintf("call did not return within %v of CPU time (honest calls take ~25 ms); the shard stops here, later cases are unobserved", callCPULimit)})
+		c.Note("a shard stopped early after a repository call that did not return")
+		c.Finish()
+		os.Exit(0)
+	}
+}
+
+// guard = core.Guard (panic + allocation monitor) under the non-termination breaker.
+func (r *runner) guard(i int, entry, gen string, f func()) core.Measured {
+	r.brk.cas.Store(int64(i))
+	r.brk.entry.Store(entry)
+	r.brk.gen.Store(gen)
+	r.brk.start.Store(procCPU() | 1)
+	m := r.c.Guard(i, entry, gen, guardBudget, f)
+	r.brk.start.Store(0)
+	return m
+}
 
 var modes = []tdxref.Mode{tdxref.ModeDefault, tdxref.ModeLegacy, tdxref.ModeLegacyEarly}
 
@@ -207,6 +257,7 @@ type runner struct {
 	rowsChecked   int
 	gridConfigs   int
 	regionsOK     int
+	brk           breaker
 }
 
 func witness(fw []byte, sp any, banks []tdxref.Range, m tdxref.Mode, more map[string]any) map[string]any {
@@ -343,7 +394,7 @@ func (r *runner) measure(i int, kind, gen string, fw []byte, banks []tdxref.Rang
 		var rerr error
 		entry := map[tdxref.Mode]string{tdxref.ModeDefault: eDefault, tdxref.ModeLegacy: eLegacy, tdxref.ModeLegacyEarly: eEarly}[m]
 		gb := toGPR(mb)
-		pm := c.Guard(i, entry, g, guardBudget, func() {
+		pm := r.guard(i, entry, g, func() {
 			switch m {
 			case tdxref.ModeDefault:
 				regions, rerr = ovmf.ExtractMaterialGuestPhysicalRegions(fw)
@@ -361,7 +412,7 @@ func (r *runner) measure(i int, kind, gen string, fw []byte, banks []tdxref.Rang
 		var got [48]byte
 		var gerr error
 		opts := optsFor(m, mb)
-		pm = c.Guard(i, eMRTD, g, guardBudget, func() { got, gerr = tdx.MRTD(opts, fw) })
+		pm = r.guard(i, eMRTD, g, func() { got, gerr = tdx.MRTD(opts, fw) })
 		c.Count("calls/"+eMRTD+"/"+m.String(), 1)
 		if pm.Panicked {
 			continue
@@ -416,7 +467,7 @@ func (r *runner) measure(i int, kind, gen string, fw []byte, banks []tdxref.Rang
 		if merr == nil && !hasTempExtend(exp.Layout.Sections) {
 			var got [48]byte
 			var gerr error
-			pm := c.Guard(i, eMRTD, gen+"/default+banks", guardBudget, func() { got, gerr = tdx.MRTD(&tdx.LaunchOptions{GuestRAMBanks: toGPR(banks)}, fw) })
+			pm := r.guard(i, eMRTD, gen+"/default+banks", func() { got, gerr = tdx.MRTD(&tdx.LaunchOptions{GuestRAMBanks: toGPR(banks)}, fw) })
 			if !pm.Panicked && gerr == nil {
 				if got == exp.MRTD {
 					c.Count("observed/default-mode-with-banks/equals-no-ram-model", 1)
@@ -492,7 +543,7 @@ func (r *runner) caseShapes(i int) {
 	valid := true
 	for _, sh := range tdxref.Shapes {
 		var o *tdx.LaunchOptions
-		pm := c.Guard(i, eShape, gen+"/"+sh.Name, guardBudget, func() { o = tdx.LaunchOptionsDefaultTDHOBBug(sh.Name) })
+		pm := r.guard(i, eShape, gen+"/"+sh.Name, func() { o = tdx.LaunchOptionsDefaultTDHOBBug(sh.Name) })
 		if pm.Panicked || o == nil {
 			continue
 		}
@@ -518,7 +569,7 @@ func (r *runner) caseShapes(i int) {
 			var mr [48]byte
 			var gerr error
 			g := gen + "/" + sh.Name + "/" + m.String()
-			pm := c.Guard(i, eMRTD, g, guardBudget, func() { mr, gerr = tdx.MRTD(o, fw) })
+			pm := r.guard(i, eMRTD, g, func() { mr, gerr = tdx.MRTD(o, fw) })
 			c.Count("calls/"+eMRTD+"/shape/"+m.String(), 1)
 			if pm.Panicked {
 				continue
@@ -569,7 +620,7 @@ func (r *runner) caseShapes(i int) {
 	var out *epb.VMTdx
 	var uerr error
 	g := fmt.Sprintf("%s/rows/%dshapes/early=%v", gen, len(names), early)
-	pm := c.Guard(i, eRows, g, guardBudget, func() {
+	pm := r.guard(i, eRows, g, func() {
 		out, uerr = tdx.UnsignedTDX(fw, &tdx.EndorsementRequest{Svn: svn, IncludeEarlyAccept: early, MachineShapes: names})
 	})
 	c.Count("calls/"+eRows, 1)
@@ -782,7 +833,7 @@ func (r *runner) caseGrid(i, cfg int, secCfg []ival, bankCfgs [][]ival) {
 				entry = eEarly
 			}
 			gb := toGPR(banks)
-			pm := c.Guard(i, entry, g, guardBudget, func() {
+			pm := r.guard(i, entry, g, func() {
 				if m == tdxref.ModeLegacy {
 					regions, rerr = ovmf.ExtractMaterialGuestPhysicalRegionsTDHOBBug(fw, gb)
 				} else {
@@ -831,7 +882,7 @@ func (r *runner) caseGrid(i, cfg int, secCfg []ival, bankCfgs [][]ival) {
 			var got [48]byte
 			var gerr error
 			opts := optsFor(m, banks)
-			pm = c.Guard(i, eMRTD, g, guardBudget, func() { got, gerr = tdx.MRTD(opts, fw) })
+			pm = r.guard(i, eMRTD, g, func() { got, gerr = tdx.MRTD(opts, fw) })
 			if pm.Panicked {
 				continue
 			}
@@ -869,6 +920,7 @@ func sameRanges(a, b []tdxref.Range) bool {
 
 func run(c *core.Ctx) {
 	r := &runner{c: c, equalByMode: map[tdxref.Mode]int{}, shapesSeen: map[string]bool{}}
+	go r.brk.watch(c)
 	nShapes := c.N(120, 1500)
 	nLayout := c.N(2400, 28000)
 	secCfgs := gridSectionConfigs()
